@@ -136,7 +136,9 @@ func TruncateInBytes(s string, n int) (string, bool) {
 	truncationTarget := n - 3
 
 	// Next, let's truncate the runes to the lower possible number.
-	truncatedRunes := r[:truncationTarget]
+	// A multi-byte string has fewer runes than bytes, so it can have fewer
+	// runes than the target.
+	truncatedRunes := r[:min(len(r), truncationTarget)]
 	for len(string(truncatedRunes)) > truncationTarget {
 		truncatedRunes = r[:len(truncatedRunes)-1]
 	}
